@@ -206,11 +206,40 @@ class C10(core.Check):
                 key = f'{strategy.exchange}-{strategy.symbol}'
                 if hook == 'before':
                     state[key] = {'active_before': [o for o in store.orders.get_active_orders(strategy.exchange, strategy.symbol) if o.is_active],
-                                  'asked': None, 'was_closed': strategy.position.is_close}
+                                  'asked': None, 'was_closed': strategy.position.is_close,
+                                  'entry_price': state.get(key, {}).get('entry_price')}
                 if hook == 'should_cancel_entry':
                     sc = sess['scripts'][strategy.symbol]
                     n = sc.get('cancel_after')
                     state[key]['asked'] = n is not None and strategy.index - strategy.vars.get('entered_at', 0) >= n
+                if hook in ('on_close_position:enter', 'on_reduced_position:enter') and order is not None and \
+                        getattr(order, 'submitted_via', None) in ('stop-loss', 'take-profit') and order.type == 'MARKET':
+                    # a MARKET exit that was executed must be JUSTIFIED by the latest declaration: a row of its quantity whose
+                    # price is inside the 0.015 % band of the fill, or lies on the wrong side of the entry price (which is
+                    # why the strategy layer replaced it by a MARKET order) — not the leftover of a superseded declaration
+                    import numpy as np
+                    decl = strategy.stop_loss if order.submitted_via == 'stop-loss' else strategy.take_profit
+                    rows = [] if decl is None else [list(map(float, r)) for r in np.array(decl, dtype=float).reshape(-1, 2)]
+                    entry = state.get(key, {}).get('entry_price')
+                    long_ = order.side == 'sell'
+                    ok = False
+                    for (rq, rp) in rows:
+                        if abs(abs(rq) - abs(order.qty)) > 1e-9:
+                            continue
+                        near = abs(1 - rp / order.price) <= thr + 1e-9 if order.price else False
+                        if order.submitted_via == 'stop-loss':
+                            wrong = entry is not None and (rp >= entry if long_ else rp <= entry)
+                        else:
+                            wrong = entry is not None and (rp <= entry if long_ else rp >= entry)
+                        if near or wrong:
+                            ok = True
+                    if rows and not ok and entry is not None:
+                        problems.append(('executed-market-exit-matches-no-declared-row', strategy.index,
+                                         {'via': order.submitted_via, 'order': [order.type, order.qty, order.price], 'declaration': rows,
+                                          'entry_price': entry}))
+                        return
+                if hook in ('on_open_position', 'on_increased_position') and strategy.position.is_open:
+                    state.setdefault(key, {})['entry_price'] = float(strategy.position.entry_price)
                 if hook != 'after':
                     return
                 st = state.get(key, {})
